@@ -126,7 +126,7 @@ def _keys_ok(g, w):
 
 def shards(tier, seed):
     out = []
-    lens = [(1, 1), (1, 2), (2, 1), (2, 2)] if tier == "quick" else [(i, j) for i in range(1, 5) for j in range(1, 5)]
+    lens = [(1, 1), (1, 2), (2, 1), (2, 2), (3, 1), (3, 2)] if tier == "quick" else [(i, j) for i in range(1, 5) for j in range(1, 5)]
     for mode in ("condense", "across", "matrix"):
         for nl, nr in lens:
             variants = [("full", -1, -1, "-9 <= a <= 9 and -9 <= b <= 9 and -9 <= c <= 9 and -9 <= d <= 9", "[-9,9]")]
